@@ -110,7 +110,15 @@ UTF8_STR_OPS = [
 ]
 
 DIGIT_ALPHA = "0a 1-_+"
-INT_OPS = [("int10", _int), ("int16", _int16)]
+def _map_int_str(s):
+    # map() through the call dispatcher: int parsing and int rendering models under map(...)
+    parts = s.split("-")
+    if isinstance(s, SymSeq):
+        return rt.call(".".join, rt.call(map, str, rt.call(map, int, parts)))
+    return ".".join(map(str, map(int, parts)))
+
+
+INT_OPS = [("int10", _int), ("int16", _int16), ("map_int_str", _map_int_str)]
 
 
 def _harness(kind, op, n, alpha, pinned):
